@@ -4,7 +4,7 @@ pub mod xmlchar;
 
 use nom::branch::alt;
 use nom::bytes::complete::tag;
-use nom::combinator::map;
+use nom::combinator::{map, recognize};
 use nom::sequence::{preceded, tuple};
 use nom::IResult;
 
@@ -12,8 +12,10 @@ use nom::IResult;
 ///
 /// [\[4\] NCName](https://www.w3.org/TR/2009/REC-xml-names-20091208/#NT-NCName)
 pub fn ncname(input: &str) -> IResult<&str, &str> {
-    // FIXME: not name
-    xmlchar::name_char_except1(":")(input)
+    recognize(tuple((
+        xmlchar::name_start_char_except1(":"),
+        xmlchar::name_char_except0(":"),
+    )))(input)
 }
 
 /// PrefixedName | UnprefixedName
